@@ -1804,6 +1804,17 @@ int32 parseServerHello(ssl_t *ssl, int32 hsLen, unsigned char **cp,
     }
 # endif
 
+    /* Likewise for a required extended_master_secret: req_ is still set
+       when the server did not answer it, which includes the case where
+       it sent no extensions at all. */
+    if (ssl->extFlags.req_extended_master_secret == 1 &&
+        ssl->extFlags.require_extended_master_secret == 1)
+    {
+        psTraceErrr("Server doesn't support extended master secret\n");
+        ssl->err = SSL_ALERT_HANDSHAKE_FAILURE;
+        return MATRIXSSL_ERROR;
+    }
+
     if (ssl->maxPtFrag & 0x10000 || ssl->extFlags.req_max_fragment_len)
     {
         /* Server didn't respond to our MAX_FRAG request. Reset default */
